@@ -69,6 +69,61 @@ theorem flatMap_esc_length (s : List Char) : s.length ≤ (s.flatMap escChar).le
     simp only [List.flatMap_cons, List.length_append, List.length_cons]
     omega
 
+/-! ### the fuel of `parseStr`: a scan to the closing quote instead of the length of the document -/
+
+theorem strEnd_acc (b : Bool) (l : List Char) (a : Nat) : strEnd b l a = a + strEnd b l 0 := by
+  induction l generalizing b a with
+  | nil => simp [strEnd]
+  | cons c r ih =>
+    cases b with
+    | true => simp only [strEnd]; rw [ih false (a + 1), ih false (0 + 1)]; omega
+    | false =>
+      simp only [strEnd]
+      split
+      · omega
+      · split
+        · rw [ih true (a + 1), ih true (0 + 1)]; omega
+        · rw [ih false (a + 1), ih false (0 + 1)]; omega
+
+theorem strEnd_plain (c : Char) (r : List Char) (a : Nat) (h1 : c ≠ '"') (h2 : c ≠ '\\') :
+    strEnd false (c :: r) a = strEnd false r (a + 1) := by
+  simp [strEnd, h1, h2]
+
+/-- the scan steps over one escaped character exactly like `parseStrBody` does (`parseStrBody_esc`) -/
+theorem strEnd_esc (c : Char) (t : List Char) (a : Nat) :
+    strEnd false (escChar c ++ t) a = strEnd false t (a + (escChar c).length) := by
+  unfold escChar
+  split
+  · simp [strEnd]
+  · split
+    · simp [strEnd]
+    · split
+      · simp [strEnd]
+      · split
+        · simp [strEnd]
+        · split
+          · simp [strEnd]
+          · split
+            · simp [strEnd]
+            · split
+              · simp [strEnd]
+              · split
+                · have hd : ∀ n, n < 16 → digitChar n ≠ '"' ∧ digitChar n ≠ '\\' := by decide
+                  have h1 := hd (c.toNat / 16) (by omega)
+                  have h2 := hd (c.toNat % 16) (by omega)
+                  simp [strEnd, h1.1, h1.2, h2.1, h2.2]
+                · rename_i h1 h2 _ _ _ _ _ _
+                  simp [strEnd, h1, h2]
+
+theorem strEnd_flatMap (s rest : List Char) (a : Nat) :
+    strEnd false (s.flatMap escChar ++ '"' :: rest) a = a + (s.flatMap escChar).length := by
+  induction s generalizing a with
+  | nil => simp [strEnd]
+  | cons c s ih =>
+    rw [List.flatMap_cons, List.append_assoc, strEnd_esc, ih]
+    simp only [List.length_append]
+    omega
+
 /-- **strings round-trip**, for every sequence of Unicode scalar values -/
 theorem parseStr_renderStr (s : String) (rest : List Char) :
     ∃ body, renderStr s ++ rest = '"' :: body ∧ parseStr body = some (s, rest) := by
@@ -77,8 +132,168 @@ theorem parseStr_renderStr (s : String) (rest : List Char) :
   rw [parseStrBody_flatMap]
   · simp
   · have := flatMap_esc_length s.toList
-    simp only [List.length_append, List.length_cons]
+    rw [strEnd_flatMap]
     omega
+
+/-! ### … and the scan is enough fuel for EVERY input: `parseStr` is the function it was with the
+    old fuel `r.length` (nothing is rejected that was accepted before, and vice versa) -/
+
+theorem strEnd_le (b : Bool) (l : List Char) : strEnd b l 0 ≤ l.length := by
+  induction l generalizing b with
+  | nil => simp [strEnd]
+  | cons c r ih =>
+    cases b with
+    | true => simp only [strEnd, List.length_cons]; rw [strEnd_acc]; have := ih false; omega
+    | false =>
+      simp only [strEnd, List.length_cons]
+      split
+      · omega
+      · split
+        · rw [strEnd_acc]; have := ih true; omega
+        · rw [strEnd_acc]; have := ih false; omega
+
+theorem isHexAny_plain (c : Char) (h : isHexAny c = true) : c ≠ '"' ∧ c ≠ '\\' := by
+  constructor <;> (intro hc; subst hc; revert h; decide)
+
+theorem hex4_plain {a b c d : Char} {h : Nat} (hh : hex4 a b c d = some h) :
+    isHexAny a = true ∧ isHexAny b = true ∧ isHexAny c = true ∧ isHexAny d = true := by
+  unfold hex4 at hh
+  split at hh
+  · rename_i hc
+    simpa [Bool.and_eq_true, and_assoc] using hc
+  · cases hh
+
+/-- four hex digits are stepped over one by one -/
+theorem strEnd_hex4 {a b c d : Char} {h : Nat} (hh : hex4 a b c d = some h) (r : List Char) (n : Nat) :
+    strEnd false (a :: b :: c :: d :: r) n = strEnd false r (n + 4) := by
+  obtain ⟨ha, hb, hc, hd⟩ := hex4_plain hh
+  rw [strEnd_plain a _ _ (isHexAny_plain a ha).1 (isHexAny_plain a ha).2,
+    strEnd_plain b _ _ (isHexAny_plain b hb).1 (isHexAny_plain b hb).2,
+    strEnd_plain c _ _ (isHexAny_plain c hc).1 (isHexAny_plain c hc).2,
+    strEnd_plain d _ _ (isHexAny_plain d hd).1 (isHexAny_plain d hd).2]
+
+theorem strEnd_true_cons (c : Char) (r : List Char) (a : Nat) :
+    strEnd true (c :: r) a = strEnd false r (a + 1) := by simp [strEnd]
+
+theorem strEnd_bs (r : List Char) (a : Nat) : strEnd false ('\\' :: r) a = strEnd true r (a + 1) := by
+  simp [strEnd]
+
+/-- whatever an escape consumes, the scan (in its "after a backslash" state) steps over too and is
+    back in its normal state at the same place -/
+theorem parseEscape_strEnd (r r' : List Char) (ch : Char) (h : parseEscape r = some (ch, r')) :
+    strEnd false r' 0 + 1 ≤ strEnd true r 0 ∧ r'.length < r.length := by
+  cases r with
+  | nil => simp [parseEscape] at h
+  | cons e r2 =>
+    simp only [parseEscape] at h
+    split at h
+    · -- `\u`
+      unfold parseU at h
+      split at h
+      · rename_i a b c d r3
+        split at h
+        · cases h
+        · rename_i hv hh
+          split at h
+          · split at h
+            · rename_i bs u a2 b2 c2 d2 r4
+              split at h
+              · rename_i hbu
+                obtain ⟨h1, h2⟩ := hbu
+                subst h1 h2
+                split at h
+                · cases h
+                · rename_i l hl
+                  split at h
+                  · simp only [Option.some.injEq, Prod.mk.injEq] at h
+                    obtain ⟨_, rfl⟩ := h
+                    rw [strEnd_true_cons, strEnd_hex4 hh, strEnd_bs, strEnd_true_cons, strEnd_hex4 hl,
+                      strEnd_acc _ _ (_ + _)]
+                    simp only [List.length_cons]
+                    omega
+                  · cases h
+              · cases h
+            · cases h
+          · split at h
+            · cases h
+            · simp only [Option.some.injEq, Prod.mk.injEq] at h
+              obtain ⟨_, rfl⟩ := h
+              rw [strEnd_true_cons, strEnd_hex4 hh, strEnd_acc _ _ (_ + _)]
+              simp only [List.length_cons]
+              omega
+      · cases h
+    · split at h
+      · cases h
+        rw [strEnd_true_cons, strEnd_acc _ _ (_ + _)]
+        simp only [List.length_cons]
+        omega
+      · cases h
+
+/-- fuel that is certainly sufficient: past the closing quote, or the whole input -/
+def EnoughFuel (f : Nat) (cs : List Char) : Prop := strEnd false cs 0 + 1 ≤ f ∨ cs.length ≤ f
+
+theorem parseStrBody_enough : ∀ (n : Nat) (cs acc : List Char) (f g : Nat), cs.length ≤ n →
+    EnoughFuel f cs → EnoughFuel g cs → parseStrBody f cs acc = parseStrBody g cs acc := by
+  intro n
+  induction n with
+  | zero =>
+    intro cs acc f g hn _ _
+    have : cs = [] := List.eq_nil_of_length_eq_zero (by omega)
+    subst this
+    cases f <;> cases g <;> simp [parseStrBody]
+  | succ n ih =>
+    intro cs acc f g hn hf hg
+    cases cs with
+    | nil => cases f <;> cases g <;> simp [parseStrBody]
+    | cons c r =>
+      have hf1 : 1 ≤ f := by
+        rcases hf with h | h
+        · omega
+        · simp only [List.length_cons] at h; omega
+      have hg1 : 1 ≤ g := by
+        rcases hg with h | h
+        · omega
+        · simp only [List.length_cons] at h; omega
+      obtain ⟨f', rfl⟩ : ∃ f', f = f' + 1 := ⟨f - 1, by omega⟩
+      obtain ⟨g', rfl⟩ : ∃ g', g = g' + 1 := ⟨g - 1, by omega⟩
+      simp only [List.length_cons] at hn
+      simp only [parseStrBody]
+      by_cases hq : c = '"'
+      · simp [hq]
+      · by_cases hb : c = '\\'
+        · subst hb
+          simp only [if_true, show ('\\' : Char) ≠ '"' by decide, if_false]
+          cases hpe : parseEscape r with
+          | none => rfl
+          | some p =>
+            obtain ⟨ch, r'⟩ := p
+            obtain ⟨h1, h2⟩ := parseEscape_strEnd r r' ch hpe
+            have hstep : strEnd false ('\\' :: r) 0 = 1 + strEnd true r 0 := by
+              rw [strEnd_bs, strEnd_acc _ _ (_ + _)]
+            apply ih r' (ch :: acc) f' g' (by omega)
+            · rcases hf with h | h
+              · left; omega
+              · right; simp only [List.length_cons] at h; omega
+            · rcases hg with h | h
+              · left; omega
+              · right; simp only [List.length_cons] at h; omega
+        · simp only [hq, hb, if_false]
+          split
+          · rfl
+          · have hstep : strEnd false (c :: r) 0 = 1 + strEnd false r 0 := by
+              rw [strEnd_plain c r 0 hq hb, strEnd_acc]
+            apply ih r (c :: acc) f' g' (by omega)
+            · rcases hf with h | h
+              · left; omega
+              · right; simp only [List.length_cons] at h; omega
+            · rcases hg with h | h
+              · left; omega
+              · right; simp only [List.length_cons] at h; omega
+
+/-- **no weakening**: with the scan as fuel `parseStr` is, on EVERY input, the function it was with
+    the length of the whole remaining document as fuel -/
+theorem parseStr_fuel (r : List Char) : parseStr r = parseStrBody r.length r [] :=
+  parseStrBody_enough r.length r [] _ _ (Nat.le_refl _) (Or.inl (Nat.le_refl _)) (Or.inr (Nat.le_refl _))
 
 /-! ## numbers -/
 
